@@ -497,7 +497,8 @@ func newStrategy(spec SchedSpec, n int, est []int64) strategy {
 			total += e
 		}
 		if total < 10 {
-			total = 1000
+			// no solo run to estimate the length from (group-first plans)
+			total = []int64{1000, 10000, 100000}[r.Intn(3)]
 		}
 		s := &pctStrat{prio: r.Perm(n)}
 		for i := 0; i < d; i++ {
